@@ -2,6 +2,8 @@
 //! workload. See /verif/DESIGN.md section 2.
 
 mod corpus;
+mod gen;
+mod hookmon;
 mod mon;
 mod props;
 mod rng;
@@ -52,6 +54,19 @@ fn main() {
                     println!("outcome: {}", mon::run_prog(&p, &binds).show());
                 }
                 Err(o) => println!("compile: {}", o.show()),
+            }
+        }
+        "ladder" => {
+            // rvmon ladder <kind> <depth> [thread]  (probe: prints the outcome or dies)
+            let kind = &args[2];
+            let depth: usize = args[3].parse().unwrap();
+            let f = props::c01::LADDERS.iter().find(|(n, _)| n == kind).expect("kind").1;
+            let src = f(depth);
+            if args.len() > 4 {
+                let h = std::thread::Builder::new().spawn(move || mon::run1(&src, &[])).unwrap();
+                println!("{}", mon::clip(&h.join().unwrap().show(), 200));
+            } else {
+                println!("{}", mon::clip(&mon::run1(&src, &[]).show(), 200));
             }
         }
         "run" => {
